@@ -169,6 +169,78 @@ def exec_override(variant):
         shutil.rmtree(d, ignore_errors=True)
 
 
+def exec_climerge(c):
+    """evo_config set -c mine.json [tokens] --merge other.json [--soft], through main()"""
+    import cli
+    from evo.tools import settings
+    d, path, cfg = _scratch_settings()
+    try:
+        other = {"plot_linewidth": 9.5, "plot_show_legend": True, "table_export_format": "latex", "a_key_only_in_other": [1, 2]}
+        mine = dict(cfg)
+        if c["drop"]:
+            del mine["plot_show_legend"]           # a key missing in the file being edited
+        json.dump(mine, open(path, "w"), indent=4, sort_keys=True)
+        opath = os.path.join(d, "other.json")
+        json.dump(other, open(opath, "w"))
+        obytes = open(opath, "rb").read()
+        sbytes = open(settings.DEFAULT_PATH, "rb").read()
+        toks = ["plot_fontscale", "2.5"] if c["toks"] else []
+        r = cli.run_cli("config", ["set", "-c", path, "--merge", opath] + (["--soft"] if c["soft"] else []) + toks, d)
+        if r["code"] not in (0, None) or r["exc"] != "none":
+            return {"out": "exit%s %s" % (r["code"], r["exc"]), "file_is_union": False, "other_same": True, "settings_same": True}
+        want = dict(mine)
+        if c["toks"]:
+            want["plot_fontscale"] = 2.5
+        for k, v in other.items():
+            if not c["soft"] or k not in want:
+                want[k] = v
+        got = json.load(open(path))
+        return {"out": "ok", "file_is_union": bool(got == want and all(type(got[k]) is type(want[k]) for k in want)),
+                "other_same": open(opath, "rb").read() == obytes, "settings_same": open(settings.DEFAULT_PATH, "rb").read() == sbytes}
+    finally:
+        shutil.rmtree(d, ignore_errors=True)
+
+
+def exec_runoverride(c):
+    """evo_ape ... -c cfg.json --serialize_plot in a FRESH process: the line width of the drawn trajectories is the one from cfg.json,
+    and the package settings file is left alone"""
+    import pickle
+    import cli
+    d = tempfile.mkdtemp(prefix="ro_", dir=core.workdir())
+    try:
+        home = os.path.join(d, "home")
+        os.makedirs(home)
+        cli.write_tum(os.path.join(d, "ref.txt"), range(6), [(i, 0, 0) for i in range(6)])
+        cli.write_tum(os.path.join(d, "est.txt"), range(6), [(i, 0.25 * i, 0) for i in range(6)])
+        lw = [3.25, 0.75][c["variant"]]
+        json.dump({"plot_linewidth": lw, "plot_reference_linestyle": ":"}, open(os.path.join(d, "cfg.json"), "w"))
+        env = dict(os.environ, HOME=home, MPLBACKEND="Agg")
+        code = ("import sys; from evo import entry_points; sys.argv = ['evo_%s', 'tum', 'ref.txt', 'est.txt', '-c', 'cfg.json', "
+                "'--serialize_plot', 'out.evo', '--no_warnings']; entry_points.%s()" % (c["tool"], c["tool"]))
+        p = subprocess.run([sys.executable, "-c", code], cwd=d, env=env, stdout=subprocess.PIPE, stderr=subprocess.STDOUT, timeout=300)
+        spath = os.path.join(home, ".evo", "settings.json")
+        if p.returncode != 0 or not os.path.exists(os.path.join(d, "out.evo")) or not os.path.exists(spath):
+            return {"out": "exit%s %s" % (p.returncode, p.stdout.decode(errors="replace")[-200:]), "effective": False, "file_same": True}
+        sdict = json.load(open(spath))
+        import matplotlib
+        matplotlib.use("Agg")
+        figs = pickle.load(open(os.path.join(d, "out.evo"), "rb"))
+        widths = []
+        for fig in (figs.values() if isinstance(figs, dict) else []):
+            for ax in fig.axes:
+                for ln in ax.lines:
+                    widths.append(float(ln.get_linewidth()))
+        import matplotlib.pyplot as plt
+        plt.close("all")
+        from evo.tools.settings_template import DEFAULT_SETTINGS_DICT
+        return {"out": "ok", "effective": any(abs(w - lw) < 1e-9 for w in widths),        # some line is drawn with the (unusual) configured width
+                "file_same": bool(sdict.get("plot_linewidth") == DEFAULT_SETTINGS_DICT["plot_linewidth"])}
+    except Exception as e:  # noqa: BLE001
+        return {"out": type(e).__name__ + ": " + str(e)[:120], "effective": False, "file_same": True}
+    finally:
+        shutil.rmtree(d, ignore_errors=True)
+
+
 # ---- evo_config generate
 def _tables():
     from evo import main_ape_parser, main_rpe_parser, main_traj_parser
@@ -304,6 +376,15 @@ def run(rep, tier, seed):
     for v in range(2):
         cases.append({"fam": "override", "variant": v})
         obs.append(exec_override(v))
+    for soft in (False, True):
+        for toks in (False, True):
+            for drop in (False, True):
+                cases.append({"fam": "climerge", "soft": soft, "toks": toks, "drop": drop})
+                obs.append(exec_climerge(cases[-1]))
+    ro = [{"fam": "runoverride", "tool": t, "variant": v} for t, v in (("ape", 0), ("rpe", 1))]
+    with ThreadPoolExecutor(2) as ex:
+        obs += list(ex.map(exec_runoverride, ro))
+    cases += ro
     traces = [{"id": "c%d" % n, "c": {k: v for k, v in c.items() if k != "want"}, "o": o, "_single": True} for n, (c, o) in enumerate(zip(cases, obs))]
     for c, o in zip(cases, obs):
         rep.nontriv(c)
